@@ -92,7 +92,9 @@ def check(acc, prog, sseed, lseed, mode, name, sample=False):
     m = rnd.choice(cands)
     from explorerscript.ssb_converting.ssb_data_types import SsbOpParamPositionMarker
 
-    edited = SsbOpParamPositionMarker(m.name, 2 - m.x_offset if m.x_offset in (0, 2) else 0, m.y_offset, m.x_relative + 7, m.y_relative)
+    # the edited mark may also get another name (an editor lets the user rename it): quotes, blanks and line breaks included
+    new_name = m.name + rnd.choice(["", "", "_e", " e d", "'s", ' "q"', "\nline2", "\n line2\n", "\t"])
+    edited = SsbOpParamPositionMarker(new_name, 2 - m.x_offset if m.x_offset in (0, 2) else 0, m.y_offset, m.x_relative + 7, m.y_relative)
     lines = r.text.split("\n")
     # absolute indices of the span
     def absidx(line, col):
@@ -119,7 +121,7 @@ def check(acc, prog, sseed, lseed, mode, name, sample=False):
                     diffs.append((x, y))
     off, pi, _ = cm[m.name][0]
     ok = len(diffs) == 1 and diffs[0] != "shape" and diffs[0][0][0] == off and \
-        diffs[0][1][2][pi] == ("pos", m.name, edited.x_offset, edited.y_offset, edited.x_relative, edited.y_relative) and \
+        diffs[0][1][2][pi] == ("pos", new_name, edited.x_offset, edited.y_offset, edited.x_relative, edited.y_relative) and \
         all(x == y for j, (x, y) in enumerate(zip(diffs[0][0][2], diffs[0][1][2])) if j != pi)
     if not ok or norm.infos(c.routine_infos, c.named_coroutines) != norm.infos(c2.routine_infos, c2.named_coroutines):
         acc.violation(gsig("edit-changed-more-or-less-than-one-parameter"), {"diffs": repr(diffs)[:400], "replaced": r.text[a:b + 1]},
